@@ -41,7 +41,8 @@ def arrivals_only(params):
 def seed_sweep(ctx, rng):
     """same parameters and seed -> same workload, for a sweep of seeds that includes 0 and other 'falsy-looking' values"""
     base = {"duration": 30, "ticks_per_second": 10, "waiting_seconds_mean": 0.5, "num_pipelines": 2, "num_operators": 3}
-    seeds = [0, 1, 2, 7, 42, 2 ** 31 - 1] + [rng.randint(0, 10 ** 9) for _ in range(2 if ctx.quick() else 20)]
+    # also seeds beyond 32 and 64 bits (numpy takes any non-negative integer): 7 and 7 + 2**32 are different seeds
+    seeds = [0, 1, 2, 7, 42, 2 ** 31 - 1, 2 ** 32, 7 + 2 ** 32, 1 + 2 ** 64] + [rng.randint(0, 10 ** 9) for _ in range(2 if ctx.quick() else 20)]
     seen = {}
     for sd in seeds:
         params = {**base, "random_seed": sd}
@@ -171,6 +172,33 @@ def param_file_runs(ctx, rng):
         ctx.coverage["distinct_nontrivial"] += 1
 
 
+def generators_side_by_side(ctx, rng):
+    """a generator's workload depends on its own parameters only: building and using another generator with other priority probabilities, another seed and
+    another size in between changes nothing"""
+    from eudoxia.workload import WorkloadGenerator
+    from eudoxia.simulator import parse_args_with_defaults
+    def emit(g, n):
+        return [[(p.priority.name, len(list(p.values))) for p in g.run_one_tick()] for _ in range(n)]
+    for case in range(3):
+        pa = parse_args_with_defaults({"ticks_per_second": 10, "waiting_seconds_mean": 0.3, "num_pipelines": 3, "random_seed": rng.randint(0, 10 ** 6),
+                                       "interactive_prob": 0.2, "query_prob": 0.2, "batch_prob": 0.6})
+        pb = {**pa, "random_seed": pa["random_seed"] + 1, "interactive_prob": 0.0, "query_prob": 1.0, "batch_prob": 0.0, "num_pipelines": 2}
+        alone = emit(WorkloadGenerator(**pa), 60)
+        g1 = WorkloadGenerator(**pa)
+        first = emit(g1, 20)
+        g2 = WorkloadGenerator(**pb)
+        emit(g2, 15)
+        rest = emit(g1, 40)
+        ctx.coverage["evaluations"] += 2
+        ctx.sit("generators_side_by_side")
+        if first + rest != alone:
+            t = next(i for i, (x, y) in enumerate(zip(first + rest, alone)) if x != y)
+            viol(ctx, "not-reproducible", f"a workload generator emits something else once a second generator with other priority probabilities exists: tick {t}: "
+                                          f"{(first + rest)[t]} instead of {alone[t]}", {"params": pa, "other": pb})
+            return
+        ctx.coverage["distinct_nontrivial"] += 1
+
+
 def hash_seed_sweep(ctx, rng):
     """every scheduler on three pools (two for priority-pool), the same configuration under four different PYTHONHASHSEEDs: anything that leans on the hash of
     a string, a uuid or an object id to order pools, pipelines or containers shows up as a different run"""
@@ -197,6 +225,7 @@ def run(ctx):
     tie_runs(ctx, random.Random(ctx.seed + 29))
     hash_seed_sweep(ctx, random.Random(ctx.seed + 31))
     param_file_runs(ctx, random.Random(ctx.seed + 37))
+    generators_side_by_side(ctx, random.Random(ctx.seed + 41))
     seed_sweep(ctx, rng)
     settings_sweep(ctx, rng)
     dag_order_runs(ctx, rng)
